@@ -307,7 +307,7 @@ _BUFMUT = r'^<(bytes::)?(BytesMut|Self|T|B) as (bytes::)?BufMut>::'
 
 def _be_bytes(m, v, n):
     if isinstance(v, T):
-        bs = [sym.fresh('pb') for _ in range(n)]
+        bs = [m.fresh('pb') for _ in range(n)]
         total = 0
         for b in bs:
             m.pc.append(sym.and_(sym.le(0, b), sym.le(b, 255)))
